@@ -44,6 +44,7 @@ type accessRec struct {
 	task  int
 	clock uint32
 	site  string
+	label string
 }
 
 type shadowVar struct {
@@ -64,6 +65,9 @@ type Race struct {
 	TaskA int    `json:"task_a"`
 	TaskB int    `json:"task_b"`
 	Step  int    `json:"step"`
+	// what each task was doing (harness-supplied label) at its access
+	LabelA string `json:"label_a,omitempty"`
+	LabelB string `json:"label_b,omitempty"`
 }
 
 // site strings have the form "<var>|<func>|<file:line>".
@@ -81,11 +85,16 @@ func (s *Sim) reportRace(kind string, prev accessRec, cur accessRec) {
 	fs := []string{fa, fb}
 	sort.Strings(fs)
 	sig := "race:" + v + ":" + fs[0] + "/" + fs[1]
-	if s.raceSeen[sig] {
+	la, lb := prev.label, cur.label
+	if la > lb {
+		la, lb = lb, la
+	}
+	seenKey := sig + "@" + la + "/" + lb
+	if s.raceSeen[seenKey] {
 		return
 	}
-	s.raceSeen[sig] = true
-	s.races = append(s.races, Race{Sig: sig, Kind: kind, Var: v, SiteA: prev.site, SiteB: cur.site, TaskA: prev.task, TaskB: cur.task, Step: s.steps})
+	s.raceSeen[seenKey] = true
+	s.races = append(s.races, Race{Sig: sig, Kind: kind, Var: v, SiteA: prev.site, SiteB: cur.site, TaskA: prev.task, TaskB: cur.task, Step: s.steps, LabelA: prev.label, LabelB: cur.label})
 }
 
 func (s *Sim) access(p unsafe.Pointer, write bool, site string) {
@@ -116,7 +125,7 @@ func (s *Sim) access(p unsafe.Pointer, write bool, site string) {
 			s.yield(t)
 		}
 	}
-	me := accessRec{task: t.id, clock: t.vc.get(t.id), site: site}
+	me := accessRec{task: t.id, clock: t.vc.get(t.id), site: site, label: t.label}
 	if write {
 		for _, u := range s.tasks {
 			if u != t && !u.finished && u.pend.srcVar == p && (u.pend.kind == OpSend || u.pend.kind == OpRecv || u.pend.kind == OpSelect || u.pend.kind == OpClose) {
